@@ -312,6 +312,8 @@ def op_shape_ok(code, p):
         return n == 0
     if code == sg.DESER:
         return n >= 1 and sg.dec_records(p[1:]) is not None
+    if code == sg.DELMANY:
+        return True
     return False
 
 
@@ -785,6 +787,12 @@ def gen_saveload(pid, tier, seed, scale=1):
     for _ in range(n_mg // 2):
         uu.append(sg.merge_history(rng, True))
         stats["merges uuid"] += 1
+    for _ in range(n_rand // 3):
+        simple.append(sg.batch_history(rng, False))
+        stats["batch deletions (half of them failing) simple"] += 1
+    for _ in range(n_rand // 6):
+        uu.append(sg.batch_history(rng, True))
+        stats["batch deletions (half of them failing) uuid"] += 1
     for _ in range(n_rand):
         simple.append(sg.random_history(rng, rng.randint(8, maxlen), False))
         stats["random simple"] += 1
